@@ -1,7 +1,6 @@
 //! Physical link abstractions.
 #![allow(clippy::cast_precision_loss)]
 
-use rand::distr::Uniform;
 use rand::prelude::StdRng;
 use rand::{Rng, RngCore};
 use std::collections::VecDeque;
@@ -363,13 +362,15 @@ impl ChannelMetrics {
 
     /// Calcualtes the duration a message travels on a link.
     #[allow(clippy::if_same_then_else, clippy::missing_panics_doc)]
+    #[allow(clippy::cast_possible_truncation, clippy::cast_sign_loss)]
     pub fn calculate_duration(&self, msg: &Message, rng: &mut dyn RngCore) -> Duration {
         let transmission_time = self.calculate_busy(msg);
         if self.jitter == Duration::ZERO {
             self.latency + transmission_time
         } else {
-            let perc = rng.sample(Uniform::new(0.0f64, self.jitter.as_secs_f64()).unwrap());
-            self.latency + transmission_time + Duration::from_secs_f64(perc)
+            // A whole number of nanoseconds in [0, jitter), derived from a single draw.
+            let nanos = rng.random::<f64>() * self.jitter.as_nanos() as f64;
+            self.latency + transmission_time + Duration::from_nanos(nanos as u64)
         }
     }
 
